@@ -366,7 +366,7 @@ pub fn gen_arg(rng: &mut Rng, id: &str, positional: bool, cfg: &GenCfg, ids: &[S
             3 => a.vp = Some(VpS::NonEmpty),
             _ => {}
         }
-        if rng.chance(1, 8) { a.ignore_case = true; }
+        if rng.chance(1, 8) { a.ignore_case = true; if a.vp.is_none() && rng.chance(1, 2) { a.vp = Some(VpS::Os); } }
         if cfg.defaults {
             if rng.chance(1, 5) { a.default_vals = vec![if matches!(a.vp, Some(VpS::I64(..))) { "3".into() } else if matches!(a.vp, Some(VpS::Possible(..))) { "slow".into() } else { "dflt".into() }]; }
             if a.num_vals.map(|(m, _)| m == 0).unwrap_or(false) && rng.chance(1, 2) { a.default_missing = vec![if matches!(a.vp, Some(VpS::I64(..))) { "7".into() } else if matches!(a.vp, Some(VpS::Possible(..))) { "fast".into() } else { "miss".into() }]; }
@@ -464,7 +464,14 @@ pub fn gen_cmd_in(rng: &mut Rng, cfg: &GenCfg, depth: usize, name: &str, inherit
             if cfg.flagsubs && rng.chance(1, 3) {
                 let f = *rng.pick(&['S', 'Q', 'R']);
                 if !c.subs.iter().any(|s: &CmdS| s.short_flag == Some(f)) { sc.short_flag = Some(f); }
-                if rng.chance(1, 2) { sc.long_flag = Some(format!("lf{}{}", depth + 1, k)); }
+                if rng.chance(1, 2) {
+                    sc.long_flag = Some(format!("lf{}{}", depth + 1, k));
+                    if rng.chance(1, 2) { sc.long_flag_aliases.push(format!("la{}{}", depth + 1, k)); if rng.chance(1, 3) { sc.long_flag_aliases.push(format!("lfx{}{}", depth + 1, k)); } }
+                }
+                if sc.short_flag.is_some() && rng.chance(1, 3) {
+                    let f2 = *rng.pick(&['T', 'U']);
+                    if !c.subs.iter().any(|s: &CmdS| s.short_flag_aliases.contains(&f2)) { sc.short_flag_aliases.push(f2); }
+                }
             }
             c.subs.push(sc);
         }
@@ -495,19 +502,20 @@ pub fn gen_argv(rng: &mut Rng, cmd: &CmdS, maxlen: usize) -> Vec<Vec<u8>> {
             0..=5 if !opts.is_empty() => {
                 let a = *rng.pick(&opts);
                 let takes = !matches!(a.action, Some("setTrue") | Some("setFalse") | Some("count"));
-                let val = rng.pick(VALS).to_string();
+                let val: Vec<u8> = { let mut v = rng.pick(VALS).as_bytes().to_vec(); if rng.chance(1, 10) { v.push(0xff); } v };
+                let cat = |head: String, tail: &[u8]| { let mut b = head.into_bytes(); b.extend_from_slice(tail); b };
                 let use_long = a.long.is_some() && (a.short.is_none() || rng.chance(1, 2));
                 if use_long {
                     let mut name = if !a.aliases.is_empty() && rng.chance(1, 4) { rng.pick(&a.aliases).clone() } else { a.long.clone().unwrap() };
                     if cur.settings.infer_long_args && rng.chance(1, 3) && name.len() > 1 { let cut = 1 + rng.below(name.chars().count() - 1); name = name.chars().take(cut).collect(); }
-                    if takes && rng.chance(1, 2) { out.push(format!("--{name}={val}").into_bytes()); }
-                    else { out.push(format!("--{name}").into_bytes()); if takes && rng.chance(4, 5) { out.push(val.into_bytes()); } }
+                    if takes && rng.chance(1, 2) { out.push(cat(format!("--{name}="), &val)); }
+                    else { out.push(format!("--{name}").into_bytes()); if takes && rng.chance(4, 5) { out.push(val); } }
                 } else {
                     let s = a.short.unwrap();
                     match rng.below(4) {
-                        0 if takes => out.push(format!("-{s}{val}").into_bytes()),
-                        1 if takes => out.push(format!("-{s}={val}").into_bytes()),
-                        _ => { out.push(format!("-{s}").into_bytes()); if takes && rng.chance(4, 5) { out.push(val.into_bytes()); } }
+                        0 if takes => out.push(cat(format!("-{s}"), &val)),
+                        1 if takes => out.push(cat(format!("-{s}="), &val)),
+                        _ => { out.push(format!("-{s}").into_bytes()); if takes && rng.chance(4, 5) { out.push(val); } }
                     }
                 }
             }
@@ -531,8 +539,13 @@ pub fn gen_argv(rng: &mut Rng, cmd: &CmdS, maxlen: usize) -> Vec<Vec<u8>> {
                 let mut nm = if !sc.aliases.is_empty() && rng.chance(1, 3) { sc.aliases[0].clone() } else { sc.name.clone() };
                 if cur.settings.infer_subcommands && rng.chance(1, 3) { nm = nm.chars().take(1 + rng.below(nm.len())).collect(); }
                 match (sc.short_flag, &sc.long_flag, rng.below(3)) {
-                    (Some(f), _, 0) => out.push(format!("-{f}").into_bytes()),
-                    (_, Some(l), 1) => out.push(format!("--{l}").into_bytes()),
+                    (Some(f), _, 0) => { let f = if !sc.short_flag_aliases.is_empty() && rng.chance(1, 3) { sc.short_flag_aliases[0] } else { f }; out.push(format!("-{f}").into_bytes()) }
+                    (_, Some(l), 1) => {
+                        // the long flag or one of its aliases, in full or (under inference) as a prefix
+                        let mut l = if !sc.long_flag_aliases.is_empty() && rng.chance(1, 2) { rng.pick(&sc.long_flag_aliases).clone() } else { l.clone() };
+                        if cur.settings.infer_subcommands && rng.chance(1, 2) { l = l.chars().take(1 + rng.below(l.len())).collect(); }
+                        out.push(format!("--{l}").into_bytes())
+                    }
                     _ => out.push(nm.into_bytes()),
                 }
                 cur = sc;
